@@ -11,12 +11,14 @@ ASSUMPTIONS = ["signatures present are non-malleable (ground-truth table)"]
 
 
 VARIANT_KINDS = ["mat_hash", "prod_hash", "mat_extra", "prod_extra", "prod_missing", "prod_rename", "prod_alias", "mat_alias",
-                 "prod_other_algorithm", "mat_other_algorithm", "prod_empty_record", "prod_more_algorithms"]
+                 "prod_other_algorithm", "mat_other_algorithm", "prod_empty_record", "prod_more_algorithms",
+                 "prod_ignorable_extra", "mat_ignorable_extra"]
 
 
 def variant(rng, mats, prods, kind=None, alias_no=None):
     kind = kind or rng.choice(["mat_hash", "prod_hash", "mat_extra", "prod_extra", "prod_missing", "prod_rename", "prod_alias", "prod_alias", "mat_alias",
-                       "prod_other_algorithm", "prod_other_algorithm", "mat_other_algorithm", "prod_empty_record", "prod_more_algorithms"])
+                       "prod_other_algorithm", "prod_other_algorithm", "mat_other_algorithm", "prod_empty_record", "prod_more_algorithms",
+                       "prod_ignorable_extra", "mat_ignorable_extra"])
     m, p = {k: dict(v) for k, v in mats.items()}, {k: dict(v) for k, v in prods.items()}
     if kind == "mat_hash" and m:
         m[rng.choice(sorted(m))] = {"sha256": "ab" * 32}
@@ -33,6 +35,10 @@ def variant(rng, mats, prods, kind=None, alias_no=None):
             d[k] = {}
         else:
             d[k] = dict(d[k], md5="0f" * 16)
+    elif kind in ("prod_ignorable_extra", "mat_ignorable_extra"):
+        # one artifact more, under a name that recording would leave out by default (a byte-code file, an editor backup,
+        # something below .git): it IS in this link, so this link reports something else
+        (p if kind.startswith("prod") else m)[rng.choice(["app.pyc", "notes.txt~", ".git/HEAD", "old.link"])] = {"sha256": "33" * 32}
     elif kind == "mat_extra":
         m["extra-m"] = {"sha256": "11" * 32}
     elif kind == "prod_missing" and len(p) > 1:
